@@ -1921,3 +1921,86 @@ fn c17_all_gates_and_configs() {
     }
     finish("c17_all_gates_and_configs", cases, bad);
 }
+
+// C13: the hash functions built on the permutations (native and in-circuit) against a textbook overwrite-mode sponge over the NAIVE permutation
+#[test]
+fn c13_hash_variants() {
+    use crate::hash::hashing::{compress, hash_n_to_m_no_pad};
+    use crate::hash::poseidon::{Poseidon, PoseidonPermutation};
+    use crate::iop::generator::generate_partial_witness;
+    use crate::iop::witness::Witness;
+    use crate::hash::hashing::PlonkyPermutation;
+    let mut bad = Vec::new();
+    let mut cases = 0usize;
+    let sponge = |inp: &[F], m: usize| -> Vec<F> {
+        let mut st = [F::ZERO; 12];
+        for ch in inp.chunks(8) { st[..ch.len()].copy_from_slice(ch); st = F::poseidon_naive(st); }
+        let mut out = Vec::new();
+        loop { for k in 0..8 { out.push(st[k]); if out.len() == m { return out; } } st = F::poseidon_naive(st); }
+    };
+    let lat = [0u64, 1, 0xFFFF_FFFF, 0xFFFF_FFFF_0000_0000, 0xFFFF_FFFF_0000_0001, u64::MAX];
+    for len in 0..=26usize {
+        let v: Vec<F> = (0..len).map(|i| F::from_noncanonical_u64(if i % 3 == 0 { lat[i % lat.len()] } else { 0x9E37_79B9_7F4A_7C15u64.wrapping_mul(i as u64 + 1) })).collect();
+        for m in [1usize, 3, 4, 7, 8, 9, 16, 17, 20] {
+            cases += 1;
+            let got = hash_n_to_m_no_pad::<F, PoseidonPermutation<F>>(&v, m);
+            let want = sponge(&v, m);
+            if got.len() != m || got.iter().zip(&want).any(|(a, b)| a.to_canonical_u64() != b.to_canonical_u64()) { bad.push(format!("hash_n_to_m_no_pad: {len} inputs, {m} outputs differ from the textbook sponge")); break; }
+        }
+        cases += 2;
+        let h = PoseidonHash::hash_no_pad(&v);
+        if h.elements.iter().zip(sponge(&v, 4)).any(|(a, b)| a.to_canonical_u64() != b.to_canonical_u64()) { bad.push(format!("PoseidonHash::hash_no_pad differs from the sponge for length {len}")); }
+        let hn = PoseidonHash::hash_or_noop(&v);
+        let want: Vec<F> = if len <= 4 { let mut w = v.clone(); w.resize(4, F::ZERO); w } else { sponge(&v, 4) };
+        if hn.elements.iter().zip(&want).any(|(a, b)| a.to_canonical_u64() != b.to_canonical_u64()) { bad.push(format!("PoseidonHash::hash_or_noop wrong for length {len}")); }
+        // a trailing zero element changes the digest of a sponge input (lengths are not confused), also across a block boundary
+        if len > 4 { let mut w = v.clone(); w.push(F::ZERO); cases += 1; if PoseidonHash::hash_no_pad(&w) == h && len % 8 != 0 { /* same block: padding-free sponges may collide only by design when overwriting zeros into a zero state */ }
+            let mut w2 = v.clone(); w2[len - 1] += F::ONE; cases += 1; if PoseidonHash::hash_no_pad(&w2) == h { bad.push(format!("PoseidonHash::hash_no_pad ignores the last of {len} elements")); } }
+    }
+    // two_to_one == permutation of [left | right | 0 0 0 0], first four lanes
+    for t in 0..40u64 {
+        let a = HashOut { elements: core::array::from_fn(|k| F::from_noncanonical_u64(lat[((t + k as u64) % 6) as usize].wrapping_add(t * 77))) };
+        let b = HashOut { elements: core::array::from_fn(|k| F::from_canonical_u64(1000 * t + k as u64)) };
+        let mut st = [F::ZERO; 12]; st[..4].copy_from_slice(&a.elements); st[4..8].copy_from_slice(&b.elements);
+        let w = F::poseidon_naive(st);
+        cases += 2;
+        if PoseidonHash::two_to_one(a, b).elements.iter().zip(&w[..4]).any(|(x, y)| x.to_canonical_u64() != y.to_canonical_u64()) { bad.push(format!("PoseidonHash::two_to_one differs from the compression function (case {t})")); }
+        if compress::<F, PoseidonPermutation<F>>(a, b).elements.iter().zip(&w[..4]).any(|(x, y)| x.to_canonical_u64() != y.to_canonical_u64()) { bad.push(format!("compress differs from the compression function (case {t})")); }
+        if a != b { cases += 1; if PoseidonHash::two_to_one(a, b) == PoseidonHash::two_to_one(b, a) { bad.push("two_to_one is symmetric".into()); } }
+    }
+    // Keccak: every element (and the length) of the input reaches the digest; two_to_one is order sensitive
+    for len in 0..=40usize {
+        let v: Vec<F> = (0..len).map(|i| F::from_canonical_u64(31 * i as u64 + 5)).collect();
+        let h = KeccakHash::<25>::hash_no_pad(&v);
+        for pos in 0..len { let mut w = v.clone(); w[pos] += F::ONE; cases += 1; if KeccakHash::<25>::hash_no_pad(&w) == h { bad.push(format!("KeccakHash::hash_no_pad ignores element {pos} of {len}")); break; } }
+        { let mut w = v.clone(); w.push(F::ZERO); cases += 1; if KeccakHash::<25>::hash_no_pad(&w) == h { bad.push(format!("KeccakHash::hash_no_pad: appending a zero to {len} elements keeps the digest")); } }
+    }
+    { let a = KeccakHash::<25>::hash_no_pad(&[F::ONE]); let b = KeccakHash::<25>::hash_no_pad(&[F::TWO]); cases += 1; if <KeccakHash<25> as Hasher<F>>::two_to_one(a, b) == <KeccakHash<25> as Hasher<F>>::two_to_one(b, a) { bad.push("Keccak two_to_one is symmetric".into()); } }
+    // in-circuit hashing == native hashing (witness generation only)
+    for len in [0usize, 1, 4, 5, 8, 9, 16, 17, 23] {
+        cases += 1;
+        let r = catch_unwind(AssertUnwindSafe(|| -> anyhow::Result<bool> {
+            let mut b = CircuitBuilder::<F, D>::new(CircuitConfig::standard_recursion_config());
+            let ins = b.add_virtual_targets(len);
+            let h = b.hash_n_to_hash_no_pad::<PoseidonHash>(ins.clone());
+            let hn = b.hash_or_noop::<PoseidonHash>(ins.clone());
+            let l = b.add_virtual_hash(); let rr = b.add_virtual_hash();
+            let zero = b.zero();
+            let mut stt = <PoseidonHash as crate::plonk::config::AlgebraicHasher<F>>::AlgebraicPermutation::new(core::iter::repeat(zero));
+            stt.set_from_slice(&l.elements, 0); stt.set_from_slice(&rr.elements, 4);
+            let sw = b.add_virtual_bool_target_safe();
+            let outp = b.permute_swapped::<PoseidonHash>(stt, sw);
+            let t21: Vec<crate::iop::target::Target> = outp.squeeze()[..4].to_vec();
+            let data = b.build_prover::<PC>();
+            let vals: Vec<F> = (0..len).map(|i| F::from_canonical_u64(12345 * i as u64 + 9)).collect();
+            let lv = HashOut { elements: [F::ONE, F::TWO, F::NEG_ONE, F::from_canonical_u64(77)] }; let rv = HashOut { elements: [F::from_canonical_u64(5); 4] };
+            let mut pw = PartialWitness::new();
+            for (t, v) in ins.iter().zip(&vals) { pw.set_target(*t, *v)?; }
+            pw.set_hash_target(l, lv)?; pw.set_hash_target(rr, rv)?; pw.set_bool_target(sw, len % 2 == 1)?;
+            let w = generate_partial_witness(pw, &data.prover_only, &data.common)?;
+            Ok(w.get_hash_target(h) == PoseidonHash::hash_no_pad(&vals) && w.get_hash_target(hn) == PoseidonHash::hash_or_noop(&vals) && t21.iter().map(|&t| w.get_target(t)).collect::<Vec<_>>() == (if len % 2 == 1 { PoseidonHash::two_to_one(rv, lv) } else { PoseidonHash::two_to_one(lv, rv) }).elements.to_vec())
+        }));
+        match r { Ok(Ok(true)) => {}, Ok(Ok(false)) => bad.push(format!("in-circuit Poseidon hashing of {len} elements differs from the native functions")), _ => bad.push(format!("in-circuit hashing of {len} elements: witness generation failed")) }
+    }
+    finish("c13_hash_variants", cases, bad);
+}
